@@ -213,4 +213,6 @@ def main(tier):
     units.report(run, fx, "C01")
     run.assumptions += ["the constants 146097 (days per 400 years) and 719468 (computational rata die of 1970-01-01) of "
                         "the Neri-Schneider paper"]
+    from ..rules import extra
+    extra.check_iso_week_calculator(run, fx)
     return run.finish(EXPLANATION)
